@@ -208,3 +208,299 @@ Proof.
   cbn [ir_bpp ir_size ir_data sw sh] in *. destruct H as (Hb & _ & _).
   bpp_cases Hb; subst bpp; norm_consts; lia.
 Qed.
+
+(* ---- ContiguousPixels ------------------------------------------------------- *)
+
+(* one row: remaining_x = n items are taken with iter.next() *)
+Lemma cp_run_row img n : forall fuel idx W ry skip,
+  img_ok img -> 0 <= idx -> idx + Z.of_nat n <= pcount img ->
+  cp_run (n + fuel) img (CP idx (Z.of_nat n) W ry skip) =
+  match cp_run fuel img (CP (idx + Z.of_nat n) 0 W ry skip) with
+  | Some l => Some (map (raw_get img) (range_from idx n) ++ l)
+  | None => None
+  end.
+Proof.
+  induction n as [|n IH]; intros fuel idx W ry skip H Hi Hn.
+  - cbn [Nat.add range_from map app]. replace (idx + Z.of_nat 0) with idx by lia.
+    change (Z.of_nat 0) with 0. destruct (cp_run fuel img _); reflexivity.
+  - cbn [Nat.add cp_run]. unfold cp_next. cbn [cp_rx cp_index cp_width cp_ry cp_row_skip].
+    destruct (0 <? Z.of_nat (Datatypes.S n)) eqn:E; [|exfalso; lia].
+    rewrite raw_next_get by (try assumption; lia).
+    replace (Z.of_nat (Datatypes.S n) - 1) with (Z.of_nat n) by lia.
+    rewrite IH by (try assumption; lia).
+    replace (idx + 1 + Z.of_nat n) with (idx + Z.of_nat (Datatypes.S n)) by lia.
+    destruct (cp_run fuel img _); reflexivity.
+Qed.
+
+(* the rows after the first: each starts with iter.nth(row_skip), then width - 1 times next() *)
+Fixpoint rows_list (img : image_raw) (idx W skip : Z) (n : nat) : list Z :=
+  match n with
+  | O => []
+  | Datatypes.S k => map (raw_get img) (range_from (idx + skip) (Z.to_nat W)) ++ rows_list img (idx + skip + W) W skip k
+  end.
+
+Lemma cp_run_rows img W skip : forall n fuel idx,
+  img_ok img -> 1 <= W -> 0 <= skip -> 0 <= idx ->
+  idx + Z.of_nat n * (skip + W) <= pcount img ->
+  (1 + n * Z.to_nat W <= fuel)%nat ->
+  cp_run fuel img (CP idx 0 W (Z.of_nat n) skip) = Some (rows_list img idx W skip n).
+Proof.
+  induction n as [|n IH]; intros fuel idx H HW Hs Hi Hn Hf.
+  - destruct fuel as [|fuel]; [lia|]. reflexivity.
+  - destruct fuel as [|fuel]; [lia|].
+    pose proof (pcount_bound img H) as Hpb.
+    cbn [cp_run]. unfold cp_next. cbn [cp_rx cp_index cp_width cp_ry cp_row_skip].
+    change (0 <? 0) with false. cbv iota.
+    destruct (Z.of_nat (Datatypes.S n) =? 0) eqn:E; [exfalso; lia|].
+    unfold raw_nth. rewrite sat_add_usize_small by nia.
+    rewrite raw_next_get by (try assumption; nia).
+    replace (Z.of_nat (Datatypes.S n) - 1) with (Z.of_nat n) by lia.
+    set (m := Z.to_nat (W - 1)). assert (Hm : Z.of_nat m = W - 1) by (subst m; lia).
+    replace fuel with (m + (fuel - m))%nat by nia.
+    rewrite <- Hm.
+    rewrite cp_run_row by (try assumption; nia).
+    replace (idx + skip + 1 + Z.of_nat m) with (idx + skip + W) by lia.
+    rewrite IH by (try assumption; nia).
+    cbn [rows_list]. replace (Z.to_nat W) with (Datatypes.S m) by lia.
+    cbn [range_from map app]. reflexivity.
+Qed.
+
+Lemma range_from_shift a n : range_from a n = map (fun x => a + x) (range_from 0 n).
+Proof.
+  revert a. induction n as [|n IH]; intros a; cbn [range_from map]; [reflexivity|].
+  f_equal; [lia|]. rewrite (IH (a + 1)), (IH (0 + 1)), map_map. apply map_ext. intros; lia.
+Qed.
+
+Lemma map_row_major {A} (F : point -> A) x0 x1 y0 y1 :
+  map F (row_major x0 x1 y0 y1) = flat_map (fun y => map (fun x => F (P x y)) (range x0 x1)) (range y0 y1).
+Proof.
+  unfold row_major. induction (range y0 y1) as [|y l IH]; cbn [flat_map map]; [reflexivity|].
+  rewrite map_app, map_map, IH. reflexivity.
+Qed.
+
+Lemma row_major_split x0 x1 y0 ym y1 :
+  y0 <= ym <= y1 -> row_major x0 x1 y0 y1 = row_major x0 x1 y0 ym ++ row_major x0 x1 ym y1.
+Proof. intros H. unfold row_major. rewrite (range_app y0 ym y1) by assumption. apply flat_map_app. Qed.
+
+Lemma row_major_one_row x0 x1 y : row_major x0 x1 y (y + 1) = map (fun x => P x y) (range x0 x1).
+Proof.
+  unfold row_major. rewrite (range_cons y (y + 1)) by lia. rewrite (range_nil (y + 1) (y + 1)) by lia.
+  cbn [flat_map]. apply app_nil_r.
+Qed.
+
+(* rows_list as a map over the row-major grid: row y (counted from y0) starts at base + skip + y * (skip + W) *)
+Lemma rows_list_grid img W skip base : forall n y0,
+  0 <= W ->
+  rows_list img (base + y0 * (skip + W)) W skip n =
+  map (fun p => raw_get img (base + skip + py p * (skip + W) + px p)) (row_major 0 W y0 (y0 + Z.of_nat n)).
+Proof.
+  induction n as [|n IH]; intros y0 HW.
+  - cbn [rows_list]. unfold row_major. rewrite (range_nil y0) by lia. reflexivity.
+  - cbn [rows_list]. rewrite (row_major_split 0 W y0 (y0 + 1)) by lia. rewrite map_app. f_equal.
+    + rewrite row_major_one_row, map_map. cbn [px py]. rewrite range_from_shift, map_map.
+      unfold range. replace (W - 0) with W by lia. apply map_ext. intros; f_equal; lia.
+    + replace (base + y0 * (skip + W) + skip + W) with (base + (y0 + 1) * (skip + W)) by lia.
+      rewrite IH by assumption. replace (y0 + 1 + Z.of_nat n) with (y0 + Z.of_nat (Datatypes.S n)) by lia.
+      reflexivity.
+Qed.
+
+(* the colours of the area (ax, ay, aw x ah) of the image, row by row *)
+Definition area_stream (img : image_raw) (ax ay aw ah : Z) : list Z :=
+  map (fun p => raw_get img ((ay + py p) * data_width img + (ax + px p))) (row_major 0 aw 0 ah).
+
+Lemma cp_list_area img ax ay aw ah isk :
+  img_ok img -> 0 <= ax -> 0 <= ay -> 0 < aw -> 0 < ah ->
+  ax + aw <= sw (ir_size img) -> ay + ah <= sh (ir_size img) ->
+  isk = ay * data_width img + ax ->
+  cp_list img (cp_new img (S aw ah) isk (data_width img - aw)) = area_stream img ax ay aw ah.
+Proof.
+  intros H Hax Hay Haw Hah Hx Hy ->.
+  pose proof (data_width_bounds img H) as Hdw. pose proof (pcount_bound img H) as Hpb.
+  set (dw := data_width img) in *. set (isk := ay * dw + ax).
+  assert (Hisk : 0 <= isk < pcount img) by (subst isk; apply index_in_range; [assumption|lia|lia]).
+  assert (Hlast : isk + aw + (ah - 1) * dw <= pcount img) by (unfold pcount; fold dw; subst isk; nia).
+  assert (Hidx : (if 0 <? isk
+                  then snd (raw_nth (ir_bpp img) (ir_alt img) (ir_data img) 0 (isk - 1)) else 0) = isk).
+  { destruct (0 <? isk) eqn:E; [|lia]. unfold raw_nth. rewrite sat_add_usize_small by lia.
+    rewrite raw_next_get by (try assumption; lia). cbn [snd]. lia. }
+  unfold cp_new. rewrite Hidx. cbn [sw sh].
+  destruct (0 <? ah) eqn:E1; [|exfalso; lia]. destruct (0 <? aw) eqn:E2; [|exfalso; lia].
+  unfold sat_sub_u32. rewrite Z.max_l by lia.
+  unfold cp_list, cp_fuel. cbn [cp_rx cp_ry cp_width].
+  set (n := Z.to_nat aw). set (m := Z.to_nat (ah - 1)).
+  assert (Hn : Z.of_nat n = aw) by (subst n; lia). assert (Hm : Z.of_nat m = ah - 1) by (subst m; lia).
+  replace (Datatypes.S (Z.to_nat (Z.max 0 aw + Z.max 0 (ah - 1) * Z.max 0 aw)))
+    with (n + (1 + m * n))%nat by nia.
+  transitivity (match cp_run (n + (1 + m * n)) img (CP isk (Z.of_nat n) aw (Z.of_nat m) (dw - aw)) with
+                | Some l => l | None => [] end); [rewrite Hn, Hm; reflexivity|].
+  assert (0 <= (ah - 1) * dw) by nia.
+  rewrite cp_run_row by (try assumption; lia).
+  rewrite Hn.
+  rewrite cp_run_rows by (try assumption; try lia; subst n; try lia; nia).
+  unfold area_stream. rewrite (row_major_split 0 aw 0 1 ah) by lia. rewrite map_app. f_equal.
+  - change 1 with (0 + 1) at 1. rewrite row_major_one_row, map_map. cbn [px py].
+    rewrite range_from_shift, map_map. unfold range. replace (aw - 0) with aw by lia.
+    apply map_ext. intros; f_equal. subst isk. fold dw. lia.
+  - replace (isk + aw) with ((isk + aw - dw) + 1 * (dw - aw + aw)) by lia.
+    rewrite rows_list_grid by lia. replace (1 + Z.of_nat m) with ah by lia.
+    apply map_ext. intros p. f_equal. subst isk. fold dw. lia.
+Qed.
+
+Lemma row_major_empty x0 x1 y0 y1 : x1 <= x0 \/ y1 <= y0 -> row_major x0 x1 y0 y1 = [].
+Proof.
+  intros H. apply length_zero_iff_nil. apply Nat2Z.inj. rewrite length_row_major. lia.
+Qed.
+
+(* ---- draw / draw_sub_image of ImageRaw -------------------------------------- *)
+(* the area is not zero sized and lies inside a drawable of size s *)
+Definition inside (s : size) (a : rect) : Prop :=
+  0 < sw (sz a) /\ 0 < sh (sz a) /\ 0 <= px (tl a) /\ 0 <= py (tl a) /\
+  px (tl a) + sw (sz a) <= sw s /\ py (tl a) + sh (sz a) <= sh s.
+
+Lemma raw_draw_sub_image_inside img a :
+  img_ok img -> inside (ir_size img) a ->
+  raw_draw_sub_image img a =
+  [FillContiguous (origin_box (sz a)) (area_stream img (px (tl a)) (py (tl a)) (sw (sz a)) (sh (sz a)))].
+Proof.
+  intros H (Hw & Hh & Hx & Hy & Hxw & Hyh). unfold raw_draw_sub_image.
+  destruct (_ || _) eqn:E; [exfalso; unfold is_zero_sized in E; lia|].
+  destruct a as [[ax ay] [aw ah]]. cbn [tl sz px py sw sh] in *.
+  rewrite (cp_list_area img ax ay aw ah) by (try assumption; reflexivity). reflexivity.
+Qed.
+
+Lemma raw_draw_sub_image_zero img a : is_zero_sized a = true -> raw_draw_sub_image img a = [].
+Proof. intros H. unfold raw_draw_sub_image. rewrite H. reflexivity. Qed.
+
+Lemma raw_draw_eq img :
+  img_ok img ->
+  raw_draw img =
+  [FillContiguous (origin_box (ir_size img)) (area_stream img 0 0 (sw (ir_size img)) (sh (ir_size img)))].
+Proof.
+  intros H. unfold raw_draw. f_equal. f_equal.
+  destruct (Z_lt_le_dec 0 (sw (ir_size img))) as [Hw|Hw]; destruct (Z_lt_le_dec 0 (sh (ir_size img))) as [Hh|Hh].
+  - destruct (ir_size img) as [w h] eqn:Es. cbn [sw sh] in *.
+    apply cp_list_area; try assumption; try lia; rewrite Es; cbn [sw sh]; lia.
+  - unfold area_stream. rewrite row_major_empty by lia. cbn [map].
+    assert (sh (ir_size img) = 0) by (destruct H as (_ & Hs & _); unfold size_ok in Hs; lia).
+    unfold cp_new, cp_list, cp_fuel. rewrite H0. change (0 <? 0) with false. cbv iota.
+    cbn [cp_rx cp_ry cp_width]. destruct (0 <? sw (ir_size img)); reflexivity.
+  - unfold area_stream. rewrite row_major_empty by lia. cbn [map].
+    assert (sw (ir_size img) = 0) by (destruct H as (_ & Hs & _); unfold size_ok in Hs; lia).
+    unfold cp_new, cp_list, cp_fuel. rewrite H0. change (0 <? 0) with false. cbv iota.
+    cbn [cp_rx cp_ry cp_width]. destruct (0 <? sh (ir_size img)); reflexivity.
+  - unfold area_stream. rewrite row_major_empty by lia. cbn [map].
+    assert (sw (ir_size img) = 0) by (destruct H as (_ & Hs & _); unfold size_ok in Hs; lia).
+    unfold cp_new, cp_list, cp_fuel. rewrite H0. change (0 <? 0) with false. cbv iota.
+    cbn [cp_rx cp_ry cp_width]. destruct (0 <? sh (ir_size img)); reflexivity.
+Qed.
+
+(* ---- drawables: ImageRaw and SubImages of it, nested to any depth ------------------ *)
+(* what SubImage::new can produce (see sub_image_wf below): a zero sized area, or an area inside the parent *)
+Definition sub_wf (ps : size) (a : rect) : Prop :=
+  size_nonneg a /\ (is_zero_sized a = true \/ inside ps a).
+
+Fixpoint d_wf (d : drawable) : Prop :=
+  match d with
+  | Raw img => img_ok img
+  | Sub parent a => d_wf parent /\ sub_wf (d_size parent) a
+  end.
+
+(* the pixel a drawable shows at p (relative to its own top left corner): specification side of SubImage,
+   which has no pixel() of its own; for ImageRaw it is the real pixel() *)
+Fixpoint d_pixel (d : drawable) (p : point) : option Z :=
+  match d with
+  | Raw img => raw_pixel img p
+  | Sub parent a => if contains (origin_box (sz a)) p then d_pixel parent (padd p (tl a)) else None
+  end.
+
+Lemma d_size_nonneg d : d_wf d -> 0 <= sw (d_size d) /\ 0 <= sh (d_size d).
+Proof.
+  destruct d as [img|parent a]; cbn [d_wf d_size].
+  - intros (_ & Hs & _). unfold size_ok in Hs. lia.
+  - intros (_ & Hn & _). exact Hn.
+Qed.
+
+Lemma d_size_ok d : d_wf d -> is_zero_sized (d_box d) = false -> size_ok (d_size d).
+Proof.
+  induction d as [img|parent IH a]; cbn [d_wf d_size]; intros H Hz.
+  - apply H.
+  - destruct H as (Hp & Hn & [Hzero|Hin]).
+    + unfold d_box, origin_box, is_zero_sized in *. cbn [d_size sz] in Hz. congruence.
+    + destruct Hin as (Hw & Hh & Hx & Hy & Hxw & Hyh).
+      assert (size_ok (d_size parent)) as Hs.
+      { apply IH; [assumption|]. unfold d_box, origin_box, is_zero_sized. cbn [sz]. lia. }
+      unfold size_ok in *. lia.
+Qed.
+
+Lemma d_draw_sub_image_zero d : forall a, is_zero_sized a = true -> d_draw_sub_image d a = [].
+Proof.
+  induction d as [img|parent IH a0]; intros a Hz; cbn [d_draw_sub_image].
+  - apply raw_draw_sub_image_zero; assumption.
+  - apply IH. exact Hz.
+Qed.
+
+Lemma padd_assoc p a b : padd (padd p a) b = padd p (padd a b).
+Proof. unfold padd. cbn [px py]. f_equal; lia. Qed.
+
+Lemma d_draw_sub_image_inside d : forall a,
+  d_wf d -> inside (d_size d) a ->
+  exists cs, d_draw_sub_image d a = [FillContiguous (origin_box (sz a)) cs] /\
+             map Some cs = map (fun p => d_pixel d (padd p (tl a))) (row_major 0 (sw (sz a)) 0 (sh (sz a))).
+Proof.
+  induction d as [img|parent IH a0]; intros a H Hin; cbn [d_draw_sub_image d_wf d_size] in *.
+  - eexists. split; [apply raw_draw_sub_image_inside; assumption|].
+    unfold area_stream. rewrite map_map. apply map_ext_in. intros p Hp. apply In_row_major in Hp.
+    destruct Hin as (Hw & Hh & Hx & Hy & Hxw & Hyh).
+    cbn [d_pixel]. rewrite raw_pixel_inside; [|assumption|apply origin_box_contains; unfold padd; cbn [px py]; lia].
+    f_equal. f_equal. unfold padd. cbn [px py]. lia.
+  - destruct H as (Hp & Hn & Hsub).
+    destruct Hin as (Hw & Hh & Hx & Hy & Hxw & Hyh).
+    destruct Hsub as [Hzero|Hin0]; [exfalso; unfold is_zero_sized in Hzero; lia|].
+    destruct Hin0 as (Hw0 & Hh0 & Hx0 & Hy0 & Hxw0 & Hyh0).
+    destruct (IH (translate_rect a (tl a0)) Hp) as (cs & Hd & Hm).
+    { unfold inside, translate_rect, padd. cbn [tl sz px py]. lia. }
+    exists cs. split; [exact Hd|]. rewrite Hm. apply map_ext_in. intros p Hq. apply In_row_major in Hq.
+    cbn [translate_rect tl sz] in Hq |- *. cbn [d_pixel].
+    replace (contains (origin_box (sz a0)) (padd p (tl a))) with true
+      by (symmetry; apply origin_box_contains; unfold padd; cbn [px py]; lia).
+    rewrite padd_assoc. reflexivity.
+Qed.
+
+(* the one call a drawable's draw() makes; none for a zero sized SubImage *)
+Theorem d_draw_spec d :
+  d_wf d ->
+  (exists cs, d_draw d = [FillContiguous (d_box d) cs] /\
+              map Some cs = map (d_pixel d) (row_major 0 (sw (d_size d)) 0 (sh (d_size d)))) \/
+  (d_draw d = [] /\ is_zero_sized (d_box d) = true).
+Proof.
+  destruct d as [img|parent a]; cbn [d_wf d_draw]; intros H.
+  - left. eexists. split; [apply raw_draw_eq; assumption|].
+    unfold area_stream. rewrite map_map. apply map_ext_in. intros p Hp. apply In_row_major in Hp.
+    cbn [d_pixel d_size] in *. rewrite raw_pixel_inside; [|assumption|apply origin_box_contains; lia].
+    f_equal; f_equal; lia.
+  - destruct H as (Hp & Hn & [Hzero|Hin]).
+    + right. split; [apply d_draw_sub_image_zero; assumption|exact Hzero].
+    + left. destruct (d_draw_sub_image_inside parent a Hp Hin) as (cs & Hd & Hm).
+      exists cs. split; [exact Hd|]. rewrite Hm. apply map_ext_in. intros p Hq. apply In_row_major in Hq.
+      cbn [d_pixel d_size] in *.
+      replace (contains (origin_box (sz a)) p) with true by (symmetry; apply origin_box_contains; lia).
+      reflexivity.
+Qed.
+
+(* stream_exact: every colour stream handed to fill_contiguous has exactly width * height items *)
+Theorem stream_exact d :
+  d_wf d ->
+  Forall (fun c => match c with
+                   | FillContiguous area cs =>
+                       area = d_box d /\ Z.of_nat (length cs) = sw (d_size d) * sh (d_size d)
+                   end) (d_draw d) /\
+  (length (d_draw d) <= 1)%nat /\
+  (is_zero_sized (d_box d) = false -> length (d_draw d) = 1%nat).
+Proof.
+  intros H. pose proof (d_size_nonneg d H) as Hs.
+  destruct (d_draw_spec d H) as [(cs & -> & Hm)|(-> & Hz)].
+  - split; [|split; [cbn [length]; lia|reflexivity]].
+    constructor; [|constructor]. split; [reflexivity|].
+    apply (f_equal (@length _)) in Hm. rewrite !map_length in Hm. rewrite Hm, length_row_major. lia.
+  - split; [constructor|]. split; [cbn [length]; lia|]. congruence.
+Qed.
